@@ -292,7 +292,7 @@ Qed.
 Lemma sim7_vote : forall s sp v Q, CIs s sp Q -> step_sim7 s sp (RVote v) (SVote v) Q.
 Proof.
   intros s sp v Q HC. apply sim7_same; [exact HC|exact I|].
-  intros sp' H. cbn [spec_step] in H. destruct (opair_leb (sp_vote sp) (Some v)); [|discriminate].
+  intros sp' H. cbn [spec_step] in H. destruct (ovote_accepts (sp_vote sp) v); [|discriminate].
   inversion H. split; reflexivity.
 Qed.
 
